@@ -1,6 +1,6 @@
 """C03 — saved files are valid, self-consistent C3D for any other reader."""
 import os
-from lib import harness, gen, c3dspec
+from lib import harness, gen, c3dspec, filegen
 from lib.harness import hx
 from checks import common, apihist, filecmp, c01
 from checks.apihist import rand_lit, conforming_history, trim
@@ -48,9 +48,18 @@ def run(rep, work, rng, tier):
                       'snap 1', 'save 1 %s_2.c3d' % cid]
             kinds['load-then-edit'] = kinds.get('load-then-edit', 0) + 1
         cases.append((cid, lines))
+    shared = work.sub('shared')
+    for i in range(n // 2):
+        L = filegen.make_layout(rng); c = filegen.make_content(rng)
+        name = 'in%d.c3d' % i; open(os.path.join(shared, name), 'wb').write(c3dspec.encode(L, c))
+        cid = 'ld%d' % i
+        lines = ['loadx 0 ' + name, 'snap 0', 'save 0 %s.c3d' % cid]
+        if rng.random() < 0.5:
+            lines += ['P.new %s %s' % (hx(b'EDITED'), hx(b'y' * rng.choice([0, 1, 7, 60, 254, 255]))), 'P.set I 0 1 1', 'param 0 ' + hx(b'EXTRA'), 'snap 0', 'save 0 %s_e.c3d' % cid]
+        cases.append((cid, lines)); kinds['loaded-from-layout-variant'] = kinds.get('loaded-from-layout-variant', 0) + 1
     sel = lambda ln: ln.split(' ', 1)[0] in ('save', 'fsum')
     cases = [(cid, [l2 for l in lines for l2 in ([l, 'fsum ' + l.split(' ')[2]] if l.startswith('save ') else [l])]) for cid, lines in cases]
-    (c, cown), (m, mown), nd = common.correspondence(rep, work, cases, select=sel, label='bytes of the saved file (size and digest)')
+    (c, cown), (m, mown), nd = common.correspondence(rep, work, cases, select=sel, label='bytes of the saved file (size and digest)', shared=shared)
     bad = 0; files = 0; residues = set(); comps = {}
     for cid, lines in cases:
         cl, cs = c.get(cid, ([], 'missing'))
